@@ -115,12 +115,13 @@ theorem memcopy_refuses_overlap (m : Mem) (dst src len : Nat) (o : Ownership)
     · simp
 
 /-- **Rollback restores the snapshot** (proved part): if `cur` and `snap` are reachable instances (e.g. `snap` a
-retained clone), the snapshot's heap pointer is not below the current one (documented precondition) and its
+retained clone), the snapshot's heap pointer is not below the current one (documented precondition) and — while the
+code slices the current stack to the snapshot's length (`Gen.rollbackSlicesCurrentStackToSp`, true today) — its
 stack extent is not above the current one, then `collect_rollback_data` either reports "equal" — and the two are
 equal on the accessible contents — or yields data whose `rollback` succeeds and makes `cur` equal to the
 snapshot (`PartialEq`: same stack vector, same `hp`, same heap contents from `hp`). -/
 theorem rollback_restores_partial {cur snap : Mem} {fc fs : Flat} (hc : Sim memSize cur fc) (hs : Sim memSize snap fs)
-    (hhp : snap.hp ≥ cur.hp) (hsl : snap.stackLen ≤ cur.stackLen) :
+    (hhp : snap.hp ≥ cur.hp) (hsl : rollbackSlicesCurrentStackToSp = true → snap.stackLen ≤ cur.stackLen) :
     (cur.collectRollbackData memSize snap = .ok none ∧ cur.eqAccessible memSize snap = true) ∨
     (∃ d m', cur.collectRollbackData memSize snap = .ok (some d) ∧ cur.rollback memSize d = .ok m' ∧
       m'.eqAccessible memSize snap = true ∧ Sim memSize m' fs) := by
@@ -130,7 +131,10 @@ theorem rollback_restores_partial {cur snap : Mem} {fc fs : Flat} (hc : Sim memS
     rw [hcoll] at hr
     obtain ⟨_, _, hbad⟩ := hr
     have := hc.hp; have := hs.hp; have := hc.sl; have := hs.sl
-    omega
+    rcases hbad with hbad | ⟨hflag, hbad⟩
+    · omega
+    · have := hsl hflag
+      omega
   | ok od =>
     cases od with
     | none =>
@@ -150,7 +154,7 @@ theorem rollback_refusal_within_transaction (ops : List Op) (hnr : ∀ op ∈ op
     (stepC memSize heapMinCap (runC memSize heapMinCap (HState.init memSize) ops).1 (.rollback k)).2 = .err .RustPanic ↔
     ∃ snap, (runA memSize (AState.init memSize) ops).1.snaps[k]? = some snap ∧
       ¬ (runA memSize (AState.init memSize) ops).1.cur.sameAccessible memSize snap ∧
-      snap.sl > (runA memSize (AState.init memSize) ops).1.cur.sl := by
+      rollbackSlicesCurrentStackToSp = true ∧ snap.sl > (runA memSize (AState.init memSize) ops).1.cur.sl := by
   have hsim := (run_refines consts_ok.2.1 consts_ok.2.2 ops (simH_init memSize)).2
   have hord := hpOrdered_run memSize ops _ (hpOrdered_init memSize) hnr
   rw [(step_refines consts_ok.2.1 consts_ok.2.2 hsim (.rollback k)).1]
@@ -164,12 +168,20 @@ theorem rollback_refusal_within_transaction (ops : List Op) (hnr : ∀ op ∈ op
     dsimp only
     by_cases hs : sa.cur.sameAccessible memSize snap
     · simp [hs]
-    · by_cases hr : snap.hp < sa.cur.hp ∨ snap.sl > sa.cur.sl
-      · have : snap.sl > sa.cur.sl := by omega
-        simp [hs, this]
-      · have h1 : ¬ snap.sl > sa.cur.sl := by omega
-        have h2 : ¬ snap.hp < sa.cur.hp := by omega
-        simp [hs, h1, h2]
+    · by_cases hr : rollbackSlicesCurrentStackToSp = true ∧ snap.sl > sa.cur.sl
+      · have h2 : snap.hp < sa.cur.hp ∨ (rollbackSlicesCurrentStackToSp = true ∧ snap.sl > sa.cur.sl) := Or.inr hr
+        rw [if_neg hs, if_pos h2]
+        simp [hs, hr.1, hr.2]
+      · have h2 : ¬ (snap.hp < sa.cur.hp ∨ (rollbackSlicesCurrentStackToSp = true ∧ snap.sl > sa.cur.sl)) := by
+          rintro (h | h)
+          · omega
+          · exact hr h
+        rw [if_neg hs, if_neg h2]
+        constructor
+        · intro hc; cases hc
+        · rintro ⟨x, hx, _, hf, hgt⟩
+          cases hx
+          exact absurd ⟨hf, hgt⟩ hr
 
 /-- the statement as the property words it (no condition on the stack extents): in a history without resets,
 rolling back to any retained (hence earlier) snapshot is never refused -/
@@ -178,26 +190,52 @@ def RollbackFullStatement : Prop :=
     let s := (runC memSize heapMinCap (HState.init memSize) ops).1
     k < s.snaps.length → (stepC memSize heapMinCap s (.rollback k)).2 ≠ .err .RustPanic
 
-/-- the refusal on a snapshot whose stack vector is longer than the current one (`self.stack[..sp]`) -/
-theorem rollback_refuses_longer_snapshot_stack {cur snap : Mem} (hne : cur.eqAccessible memSize snap = false)
-    (hhp : snap.hp ≥ cur.hp) (hsl : snap.stackLen > cur.stackLen) :
+/-- the refusal on a snapshot whose stack vector is longer than the current one (`self.stack[..sp]`), present
+while the code has today's shape -/
+theorem rollback_refuses_longer_snapshot_stack (hflag : rollbackSlicesCurrentStackToSp = true) {cur snap : Mem}
+    (hne : cur.eqAccessible memSize snap = false) (hhp : snap.hp ≥ cur.hp) (hsl : snap.stackLen > cur.stackLen) :
     cur.collectRollbackData memSize snap = .error .RustPanic := by
   unfold Mem.collectRollbackData
   have : ¬ snap.hp < cur.hp := by omega
-  simp [hne, this, hsl]
+  simp [hne, this, hsl, hflag]
 
-/-- **The full statement is false on the current code**: grow the stack to 100, snapshot, let the heap overtake
-the old stack extent down to address 50 (which truncates the stack vector), roll back to the snapshot —
-`collect_rollback_data` panics slicing `self.stack[..100]` of a 50-byte vector. (Replayed on the real code by the
-`c23` stream; known finding `rollback-panics-current-stack-shorter-than-snapshot`.) -/
-theorem rollback_full_statement_false : ¬ RollbackFullStatement := by
-  intro h
-  have := h [.growStack 100, .snapshot, .growHeap 0 (memSize - 50)] 0
-    (by intro op hop
+/-- **The full statement holds exactly for the repaired code shape.** With today's code
+(`rollbackSlicesCurrentStackToSp = true`) it is FALSE: grow the stack to 100, snapshot, let the heap overtake the old
+stack extent down to address 50 (which truncates the stack vector), roll back to the snapshot —
+`collect_rollback_data` panics slicing `self.stack[..100]` of a 50-byte vector (replayed on the real code by the
+`c23` stream; known finding `rollback-panics-current-stack-shorter-than-snapshot`). With the repaired shape
+(repo-patches/fix-C23-rollback-short-stack.diff, recognised by the translator) it is TRUE. -/
+theorem rollback_full_statement_iff : RollbackFullStatement ↔ rollbackSlicesCurrentStackToSp = false := by
+  constructor
+  · intro h
+    cases hflag : rollbackSlicesCurrentStackToSp with
+    | false => rfl
+    | true =>
+      exfalso
+      have hno : ∀ op ∈ [Op.growStack 100, Op.snapshot, Op.growHeap 0 (memSize - 50)], op ≠ Op.reset := by
+        intro op hop
         simp only [List.mem_cons, List.mem_nil_iff, or_false] at hop
-        rcases hop with rfl | rfl | rfl <;> (intro hc; cases hc))
-    (by decide +kernel)
-  exact this (by decide +kernel)
+        rcases hop with rfl | rfl | rfl <;> (intro hc; cases hc)
+      have := h [.growStack 100, .snapshot, .growHeap 0 (memSize - 50)] 0 hno (by decide +kernel)
+      apply this
+      rw [rollback_refusal_within_transaction _ hno]
+      obtain ⟨snap, hsnap⟩ : ∃ snap, (runA memSize (AState.init memSize)
+          [.growStack 100, .snapshot, .growHeap 0 (memSize - 50)]).1.snaps[0]? = some snap := ⟨_, rfl⟩
+      have h1 : ((runA memSize (AState.init memSize)
+          [.growStack 100, .snapshot, .growHeap 0 (memSize - 50)]).1.snaps[0]?).map (·.sl) = some 100 := by decide +kernel
+      have h2 : (runA memSize (AState.init memSize)
+          [.growStack 100, .snapshot, .growHeap 0 (memSize - 50)]).1.cur.sl = 50 := by decide +kernel
+      rw [hsnap] at h1
+      simp only [Option.map_some, Option.some.injEq] at h1
+      refine ⟨snap, hsnap, ?_, hflag, by omega⟩
+      intro hsame
+      have := hsame.1
+      omega
+  · intro hflag ops k hnr s hk hpanic
+    have := (rollback_refusal_within_transaction ops hnr k).mp hpanic
+    obtain ⟨_, _, _, hf, _⟩ := this
+    rw [hflag] at hf
+    cases hf
 
 /-! ### non-vacuity -/
 
@@ -222,9 +260,9 @@ example : ∃ s m', Reachable s ∧ s.cur.heap (s.cur.heapLen - 1) ≠ 0 ∧
 
 /-- `rollback_restores_partial`'s hypotheses are met by a reachable pair with different contents -/
 example : ∃ cur snap : Mem, ∃ fc fs : Flat, Sim memSize cur fc ∧ Sim memSize snap fs ∧ snap.hp ≥ cur.hp ∧
-    snap.stackLen ≤ cur.stackLen ∧ cur.eqAccessible memSize snap = false := by
+    (rollbackSlicesCurrentStackToSp = true → snap.stackLen ≤ cur.stackLen) ∧ cur.eqAccessible memSize snap = false := by
   have h := (run_refines consts_ok.2.1 consts_ok.2.2
     [.growStack 8, .snapshot, .write 0 [1], .growHeap 8 4] (simH_init memSize)).2
-  refine ⟨_, _, _, _, h.cur, h.snaps 0 _ _ rfl rfl, by decide +kernel, by decide +kernel, by decide +kernel⟩
+  refine ⟨_, _, _, _, h.cur, h.snaps 0 _ _ rfl rfl, by decide +kernel, fun _ => by decide +kernel, by decide +kernel⟩
 
 end FuelVerif.Memory.C23
